@@ -259,7 +259,7 @@ def gen_pressures():
             L.append(fn.leaf(pre + name, vars=vars_, inline=inline or {}, allow_new_vars=False, **sel))
         lf("lp0", [PH + "lk"], lhs="lp", nth=0)
         L.append(fn.leaf(pre + "lp_inc", vars=["rxn_ptr->s->la", "rxn_ptr->coef"], allow_new_vars=False, increment=True, lhs="lp", nth=0))
-        lf("p_soln", ["LOG_10", "lp", PH + "pr_si_f"], lhs=PH + "p_soln_x")
+        lf("p_soln", ["LOG_10", "lp", PH + "pr_si_f"], lhs=PH + "p_soln_x", under=[PH + "in == 1"])
         lf("moles_ideal", [PH + "p_soln_x", VOL, "tk_x"], lhs=PH + "moles_x", under=["!(pr_done)"])
         L.append(_setter_arg(fn, pre + "totp_ideal", "Set_total_p", ["!(pr_done)"], [TP, PH + "p_soln_x"]))
     # fixed pressure: moles and mole fraction from the equilibrium partial pressure
@@ -321,6 +321,67 @@ def gen_tidy():
          mk(fn, "td_x", ["gc[j_PR].Get_p_read()", "P"], lhs="phase_ptr->moles_x"),
          _setter_arg(fn, "td_moles_pr", "Set_moles", ["PR&&P>0", "phase_ptr", "!(gc[j_PR].Get_p_read()==0)"], ["phase_ptr->moles_x", VOL, "V_m"])]
     return L
+
+
+# ------------------------------------------------------------------------------------------------ phase (re)initialisation
+def _calls_under(fn, callee_name):
+    """[(conditions, rendered call)] for every call of a function / method named callee_name inside fn"""
+    out = []
+
+    def walk(n, conds):
+        if not isinstance(n, dict):
+            return
+        k = n.get("kind")
+        if k == "IfStmt" and n.get("inner"):
+            inner = n["inner"]
+            c = leaf.render(inner[0])
+            if len(inner) > 1:
+                walk(inner[1], conds + [c])
+            if len(inner) > 2:
+                walk(inner[2], conds + ["!(" + c + ")"])
+            return
+        if k in ("CallExpr", "CXXMemberCallExpr"):
+            callee = leaf._strip(n["inner"][0])
+            nm = callee.get("name") or callee.get("referencedDecl", {}).get("name")
+            if nm == callee_name:
+                out.append((list(conds), leaf.render(n)))
+        for c in n.get("inner", []) or []:
+            walk(c, conds)
+    walk(fn.decl, [])
+    return out
+
+
+def gen_phase_init():
+    """structures.cpp: phase_init is what (re)initialises a phase: phase_alloc (new phase) and phase_store (EXISTING phase that a
+    PHASES block redefines) both call it.  The cached Peng-Robinson state (pr_si_f = log10 phi is read by the gas-pressure code for
+    ideal gases too) must be reset there.  Emits the constant stores of phase_init and where it is called from."""
+    src = os.path.join(vlib.REPO, "src/phreeqcpp/structures.cpp")
+    fn = leaf.load_function(src, "phase_init")
+    consts, others = [], []
+    for s_ in fn.sites:
+        if not s_.lhs.startswith("phase_ptr->") or s_.kind != "assign" or any(t == "loop" for t, c in s_.conds) \
+                or [c for t, c in s_.conds if t == "if"]:
+            continue
+        field = s_.lhs[len("phase_ptr->"):]
+        try:
+            e = leaf._Translator(fn, [], {}, {}, False).tr(s_.node)
+        except LeafError:
+            e = None
+        if e is not None and e[0] == 'const':
+            consts.append((field, e[1]))
+        elif e is not None and e[0] == 'neg' and e[1][0] == 'const':
+            consts.append((field, -e[1][1]))
+        else:
+            others.append((field, leaf.render(s_.node)))
+    txt = "Definition phase_init_consts : list (string * Q) := [\n  %s].\n" % ";\n  ".join(
+        "(%s, %s)" % (cs(f), leaf.coq_Q(v)) for f, v in consts)
+    txt += "Definition phase_init_others : list (string * string) := [%s].\n" % "; ".join("(%s, %s)" % (cs(f), cs(v)) for f, v in others)
+    fs = leaf.load_function(src, "phase_store")
+    fa = leaf.load_function(src, "phase_alloc")
+    txt += "Definition phase_store_reinit_calls : list (list string * string) := [%s].\n" % "; ".join(
+        "(%s, %s)" % (strlist(c), cs(r)) for c, r in _calls_under(fs, "phase_init"))
+    txt += "Definition phase_alloc_init_calls : nat := %d.\n" % len(_calls_under(fa, "phase_init"))
+    return txt
 
 
 # ------------------------------------------------------------------------------------------------ mb_gases
@@ -402,7 +463,7 @@ def _generate():
     text = leaf.emit_coq(leaves, header="C19: calc_PR (prep.cpp, gases.cpp), calc_gas_pressures, mb_gases (model.cpp), "
                          "calc_fixed_volume_gas_pressures, calc_gas_binary_parameter (gases.cpp)", extra="")
     text = text.replace("From IPV Require Import Base.RExpr.", "From IPV Require Import Base.RExpr C19.BExpr.")
-    text += "Open Scope Q_scope.\n" + extra_pr + extra_mb + extra_b
+    text += "Open Scope Q_scope.\n" + extra_pr + extra_mb + extra_b + gen_phase_init()
     vlib.write_if_changed(os.path.join(vlib.COQ, "Gen", "Gen_C19_gases.v"), text)
     return {l.name: l for l in leaves}, rows
 
